@@ -5,6 +5,10 @@ import os, sys, argparse
 sys.path.insert(0, os.path.dirname(os.path.abspath(__file__)))
 
 def main():
+    try:
+        sys.set_int_max_str_digits(0)   # worker results may carry integers with more than 4300 digits
+    except AttributeError:
+        pass
     ap = argparse.ArgumentParser()
     ap.add_argument('prop')
     ap.add_argument('--tier', default=None, choices=['quick', 'thorough'])
